@@ -44,11 +44,12 @@ pub enum Kind {
     TStr,
     Dyn,
     Arr,
+    P,
     Set,
 }
 
 impl Kind {
-    pub const ALL: [Kind; 16] = [
+    pub const ALL: [Kind; 17] = [
         Kind::D,
         Kind::R,
         Kind::L,
@@ -64,10 +65,11 @@ impl Kind {
         Kind::TStr,
         Kind::Dyn,
         Kind::Arr,
+        Kind::P,
         Kind::Set,
     ];
     pub fn has_tok(self) -> bool {
-        matches!(self, Kind::D | Kind::R | Kind::L | Kind::LS | Kind::RB | Kind::SH | Kind::TSH | Kind::Dyn)
+        matches!(self, Kind::D | Kind::R | Kind::L | Kind::LS | Kind::RB | Kind::SH | Kind::TSH | Kind::Dyn | Kind::P)
     }
     pub fn needs_trace(self) -> bool {
         !matches!(self, Kind::L | Kind::LS | Kind::Str | Kind::TStr)
@@ -80,6 +82,7 @@ impl Kind {
             Kind::LB => 1,
             Kind::RB => crate::heap::RB_STRONG,
             Kind::OB => 1,
+            Kind::P => 2,
             _ => 0,
         }
     }
@@ -88,6 +91,7 @@ impl Kind {
             Kind::D => crate::heap::D_WEAK,
             Kind::R => crate::heap::R_WEAK,
             Kind::RB => crate::heap::RB_WEAK,
+            Kind::P => 1,
             _ => 0,
         }
     }
@@ -98,6 +102,7 @@ impl Kind {
             Kind::R => crate::heap::R_STRONG,
             Kind::LB | Kind::OB => 1,
             Kind::RB => crate::heap::RB_STRONG,
+            Kind::P => 2,
             Kind::Sl | Kind::TSl | Kind::SH | Kind::TSH | Kind::Arr => 3,
             _ => 0,
         }
@@ -107,6 +112,7 @@ impl Kind {
             Kind::D | Kind::Dyn => crate::heap::D_WEAK,
             Kind::R => crate::heap::R_WEAK,
             Kind::RB => crate::heap::RB_WEAK,
+            Kind::P => 1,
             _ => 0,
         }
     }
@@ -155,6 +161,10 @@ pub enum MutOp {
     SetPacing { preset: u8 },
     /// mutate a leaf (barrier on an object that needs no tracing)
     PokeLeaf { target: Sel },
+    /// Grow a rooted chain (pacing workloads): allocate a node whose strong slot 1 points to the
+    /// current content of root slot `slot`, then store the node into that root slot. `dual`: the node
+    /// is a pair node that also holds a fresh leaf weakly (traced first) and strongly.
+    Push { slot: u8, dual: bool, kind: Kind },
     /// pointer conversion chain on `target`, result stored like Link
     Convert { target: Sel, chain: u8, store: Option<(Sel, u8, u8)> },
 }
